@@ -187,7 +187,7 @@ func (m *TCPMuxDefault) createConn(ufrag string, isIPv6 bool, local net.IP, from
 	go func() {
 		defer m.wg.Done()
 		<-conn.CloseChannel()
-		m.removeConnByUfragAndLocalHost(ufrag, connKey)
+		m.removeConnByUfragAndLocalHost(ufrag, connKey, conn)
 	}()
 
 	return conn, nil
@@ -381,13 +381,18 @@ func (m *TCPMuxDefault) RemoveConnByUfrag(ufrag string) {
 	}
 }
 
-func (m *TCPMuxDefault) removeConnByUfragAndLocalHost(ufrag string, localIPAddr ipAddr) {
+// removeConnByUfragAndLocalHost is called by the close watcher of closedConn. It removes
+// the entry registered under ufrag and local address only if that entry still is
+// closedConn: the key may have been removed and taken by a newer connection since
+// (RemoveConnByUfrag followed by GetConnByUfrag or by a first STUN binding), and the
+// other address family may hold another connection under the same key.
+func (m *TCPMuxDefault) removeConnByUfragAndLocalHost(ufrag string, localIPAddr ipAddr, closedConn *tcpPacketConn) {
 	removedConns := make([]*tcpPacketConn, 0, 4)
 
 	// Keep lock section small to avoid deadlock with conn lock
 	m.mu.Lock()
 	if conns, ok := m.connsIPv4[ufrag]; ok {
-		if conn, ok := conns[localIPAddr]; ok {
+		if conn, ok := conns[localIPAddr]; ok && conn == closedConn {
 			delete(conns, localIPAddr)
 			if len(conns) == 0 {
 				delete(m.connsIPv4, ufrag)
@@ -396,7 +401,7 @@ func (m *TCPMuxDefault) removeConnByUfragAndLocalHost(ufrag string, localIPAddr 
 		}
 	}
 	if conns, ok := m.connsIPv6[ufrag]; ok {
-		if conn, ok := conns[localIPAddr]; ok {
+		if conn, ok := conns[localIPAddr]; ok && conn == closedConn {
 			delete(conns, localIPAddr)
 			if len(conns) == 0 {
 				delete(m.connsIPv6, ufrag)
